@@ -37,7 +37,7 @@ struct Check {
   long long comparisons = 0;
 
   void bad(const std::string& cls, const std::string& detail) {
-    std::string full = "C05:" + cls + g_cls_suffix;
+    std::string full = with_suffix("C05:" + cls, g_cls_suffix);
     cnt(MISMATCHES)++;
     if (class_should_print(full)) vf::mismatch(full, cfg + " " + detail);
   }
@@ -54,8 +54,10 @@ struct Check {
   // ---- parts common to the three flavours ----
   void common(E& ex) {
     Model& md = ex.mod;
+    phase("get_number_of_columns");
     eq((long long)ex.m->get_number_of_columns(), (long long)md.n(), "get_number_of_columns:" + fl, "number of columns");
     if constexpr (O::has_matrix_maximal_dimension_access) {
+      phase("get_max_dimension");
       eq((int)ex.m->get_max_dimension(), md.max_dim(), "get_max_dimension:" + fl, "max dimension");
     }
   }
@@ -84,6 +86,7 @@ struct Check {
         if (want.empty()) continue;
         std::map<Index, int> got;
         bool rowok = true;
+        phase("get_row");
         const auto& row = ex.m->get_row(md.ids[r]);
         for (const auto& e : row) {
           int val = 1;
@@ -156,11 +159,15 @@ struct Check {
       Index idx = ex.index_of(j);
       int l = low_of(R[j]);
       Index want = l < 0 ? NUL : md.ids[l];
+      phase("get_pivot");
       eq(ex.m->get_pivot(idx), want, "get_pivot:" + fl + stage, "pivot of the column at position " + std::to_string(j));
+      phase("is_zero_column");
       eq(ex.m->is_zero_column(idx), l < 0, "is_zero_column:" + fl + stage, "position " + std::to_string(j));
+      phase("get_column_dimension");
       eq((int)ex.m->get_column_dimension(idx), md.dim(j), "get_column_dimension:" + fl + stage,
          "position " + std::to_string(j));
       if constexpr (O::flavour == F_RU) {
+        phase("get_column_with_pivot");
         if (l >= 0) eq(ex.m->get_column_with_pivot(md.ids[l]), idx, "get_column_with_pivot:" + fl + stage,
                        "column with pivot id " + std::to_string(md.ids[l]));
       }
@@ -172,6 +179,7 @@ struct Check {
     std::vector<Vec> R;
     ok = true;
     for (int j = 0; j < md.n(); ++j) {
+      phase("get_column");
       auto r = ex.read_by_id(ex.m->get_column(ex.index_of(j)));
       ++comparisons;
       if (!r.ok) {
@@ -243,6 +251,7 @@ struct Check {
     bool sok = true;
     for (int j = 0; j < n; ++j) {
       ColRead r;
+      phase("get_column(U)");
       if constexpr (!E::ID_IDX) r = ex.read_by_pos(ex.m->get_column((Index)j, false));
       else r = ex.read_by_pos(ex.under().mirrorMatrixU_.get_column((Index)j));
       ++comparisons;
@@ -311,13 +320,18 @@ struct Check {
     std::vector<Index> idx(n), uidx(n);
     std::map<Index, int> upos;
     for (int j = 0; j < n; ++j) {
+      phase("get_column_with_pivot");
       idx[j] = ex.index_of(j);
       uidx[j] = ex.under().get_column_with_pivot(md.ids[j]);
       upos[uidx[j]] = j;
+      phase("get_pivot");
       eq(ex.m->get_pivot(idx[j]), md.ids[j], "get_pivot:chain", "pivot of the column of position " + std::to_string(j));
       Index want = E::ID_IDX ? md.ids[j] : E::POS_IDX ? (Index)j : uidx[j];
+      phase("get_column_with_pivot");
       eq(ex.m->get_column_with_pivot(md.ids[j]), want, "get_column_with_pivot:chain", "column with pivot id " + std::to_string(md.ids[j]));
+      phase("get_column_dimension");
       eq((int)ex.m->get_column_dimension(idx[j]), md.dim(j), "get_column_dimension:chain", "position " + std::to_string(j));
+      phase("is_zero_column");
       eq(ex.m->is_zero_column(idx[j]), false, "is_zero_column:chain", "position " + std::to_string(j));
     }
     ++comparisons;
@@ -335,6 +349,7 @@ struct Check {
       bool shape = low_of(C[j]) == j;
       for (int r = 0; r < n; ++r) if (C[j][r] && md.dim(r) != md.dim(j)) shape = false;
       if (!shape) { bad("chain:leading_cell", "column of position " + std::to_string(j) + " is " + vstr(C[j])); continue; }
+      phase("get_column");
       const auto& col = ex.m->get_column(idx[j]);
       int got_partner = -1;
       if (col.is_paired()) {
@@ -403,7 +418,7 @@ struct Tag { using type = T; };
 template <class F, class... Os>
 void for_each_config(List<Os...>, F&& f) { (f(Tag<Os>{}), ...); }
 
-struct PlanItem { std::string u; int max_ins, max_rem; };
+struct PlanItem { std::string u; int max_ins, max_rem; std::vector<int> primes; bool empty_remove = false; };
 
 int main(int argc, char** argv) {
   vf::Args a = vf::parse_args(argc, argv);
@@ -440,7 +455,7 @@ int main(int argc, char** argv) {
       run_isolated(
           1, [&](size_t) { c.run_case(U, p, idm, ctor, ops); return true; },
           [&](size_t) { return case_string(c.cfg, U, p, idm, ctor, ops); },
-          [&](const std::string& ph, const std::string& kind) { return "C05:" + c.crash_class(ph, kind) + suffix; }, EV_TRACES);
+          [&](const std::string& ph, const std::string& kind) { return with_suffix("C05:" + c.crash_class(ph, kind), suffix); }, EV_TRACES);
     });
     if (!found) fprintf(stderr, "configuration %s is not in this unit\n", kv["cfg"].c_str());
     finish();
@@ -450,31 +465,36 @@ int main(int argc, char** argv) {
   // plan: universe:max_insertions:max_remove_last, ...
   std::vector<PlanItem> plan;
   {
-    std::string s = a.get("plan", thorough ? "tet:8:2,tri:7:4,square:9:2,strip:7:2,cw:7:3" : "tet:7:2,square:7:1,cw:7:2"), cur;
+    std::string s = a.get("plan", thorough ? "tet:8:1:2+3,tet:7:2:2+3+5,tri:7:4:2+3,square:9:1:2+3,strip:7:1:2+3,cw:7:2:2+3+5"
+                                      : "tet:7:2:2,tet:6:2:3,square:6:1:2+3,cw:6:1:2+3+5,tet:4:3:2+3:e"), cur;
     for (char ch : s + ",") {
       if (ch != ',') { cur += ch; continue; }
       if (cur.empty()) continue;
       PlanItem it;
-      size_t c1 = cur.find(':'), c2 = cur.find(':', c1 + 1);
+      size_t c1 = cur.find(':'), c2 = cur.find(':', c1 + 1), c3 = cur.find(':', c2 + 1);
       it.u = cur.substr(0, c1);
       it.max_ins = atoi(cur.substr(c1 + 1, c2 - c1 - 1).c_str());
-      it.max_rem = atoi(cur.substr(c2 + 1).c_str());
+      it.max_rem = atoi(cur.substr(c2 + 1, c3 == std::string::npos ? std::string::npos : c3 - c2 - 1).c_str());
+      if (c3 != std::string::npos) {  // optional: primes of this item, then ":e" = also remove_last on an empty matrix
+        size_t c4 = cur.find(':', c3 + 1);
+        it.primes = vf::parse_ints(cur.substr(c3 + 1, c4 == std::string::npos ? std::string::npos : c4 - c3 - 1), '+');
+        it.empty_remove = c4 != std::string::npos && cur.substr(c4 + 1) == "e";
+      }
       plan.push_back(it);
       cur.clear();
     }
   }
-  bool empty_remove = a.geti("emptyrem", 1) != 0;
   std::vector<int> primes = vf::parse_ints(a.get("primes", thorough ? "2,3,5" : "2,3"));
   // (idmode, ctor) combinations, written idmode*10+ctor
-  std::vector<int> modes = vf::parse_ints(a.get("modes", thorough ? "00,11,20,31,01,10,21" : "00,11,20"));
+  std::vector<int> modes = vf::parse_ints(a.get("modes", thorough ? "00,11,20,31,41,01,21,40" : "00,11,20,41"));
 
   for (auto& item : plan) {
     Universe U = make_universe(item.u);
     HistoryBounds hb;
     hb.max_ins = item.max_ins;
     hb.max_rem = item.max_rem;
-    hb.empty_remove = empty_remove;
-    for (int p : primes) {
+    hb.empty_remove = item.empty_remove;
+    for (int p : item.primes.empty() ? primes : item.primes) {
       long long raw = 0;
       auto H = enumerate_histories(U, hb, p, &raw);
       vf::stats().add("histories_enumerated_raw", raw);
@@ -498,6 +518,7 @@ int main(int argc, char** argv) {
             if (idm == 0 && info[i].insert_after_remove) continue;
             sel.push_back(i);
           }
+          std::stable_partition(sel.begin(), sel.end(), [&](size_t i) { return !info[i].empty_remove; });
           size_t left = run_isolated(
               sel.size(),
               [&](size_t k) {
@@ -507,8 +528,8 @@ int main(int argc, char** argv) {
               },
               [&](size_t k) { return case_string(c.cfg, U, p, idm, ctor, H[sel[k]]); },
               [&](const std::string& ph, const std::string& kind) {
-                return "C05:" + c.crash_class(ph, kind) +
-                       (info[sel[g_sh->cur]].empty_remove ? ":history_with_remove_last_on_empty_matrix" : "");
+                return with_suffix("C05:" + c.crash_class(ph, kind),
+                                   info[sel[g_sh->cur]].empty_remove ? ":history_with_remove_last_on_empty_matrix" : "");
               },
               EV_TRACES);
           if (left) {
